@@ -96,6 +96,41 @@ func main() {
 	pkg := filepath.Join(repo, "pkg", "cgroup")
 	os.MkdirAll(outDir, 0755)
 	replace := map[string]string{}
+	// optional third argument: a scratch tree holding a candidate change (tools/trymut.sh). Every Go file that differs
+	// from the repository is mapped in, so the repository itself is never modified while a change is tried.
+	alt := ""
+	if len(os.Args) > 3 && os.Args[3] != "" {
+		alt = os.Args[3]
+		filepath.Walk(alt, func(p string, fi os.FileInfo, err error) error {
+			if err != nil {
+				return nil
+			}
+			rel, _ := filepath.Rel(alt, p)
+			if fi.IsDir() {
+				if strings.HasPrefix(fi.Name(), ".") || strings.HasPrefix(fi.Name(), "_") {
+					return filepath.SkipDir
+				}
+				return nil
+			}
+			if !strings.HasSuffix(p, ".go") || strings.HasSuffix(p, "_test.go") {
+				return nil
+			}
+			a, _ := os.ReadFile(p)
+			b, err2 := os.ReadFile(filepath.Join(repo, rel))
+			if err2 != nil || !bytes.Equal(a, b) {
+				replace[filepath.Join(repo, rel)] = p
+			}
+			return nil
+		})
+	}
+	srcOf := func(n string) string {
+		if alt != "" {
+			if _, err := os.Stat(filepath.Join(alt, "pkg", "cgroup", n)); err == nil {
+				return filepath.Join(alt, "pkg", "cgroup", n)
+			}
+		}
+		return filepath.Join(pkg, n)
+	}
 	ents, err := os.ReadDir(pkg)
 	if err != nil {
 		fmt.Fprintln(os.Stderr, err)
@@ -108,7 +143,7 @@ func main() {
 			continue
 		}
 		fset := token.NewFileSet()
-		f, err := parser.ParseFile(fset, filepath.Join(pkg, n), nil, parser.ParseComments)
+		f, err := parser.ParseFile(fset, srcOf(n), nil, parser.ParseComments)
 		if err != nil {
 			fmt.Fprintln(os.Stderr, err)
 			os.Exit(1)
